@@ -66,7 +66,25 @@ func padBytes(n, pat int) []byte {
 	return b
 }
 
+// c06Headers: every exchange type × the flag combinations × both roles (whatever the header says, a message handed to
+// EncodeEncrypt with keys goes out protected and the peer reads the header it was given)
+func c06Headers(c *engine.Ctx) {
+	al := univ.Alphabet()
+	for ex := 0; ex < 256; ex++ {
+		if !c.Mine() {
+			continue
+		}
+		for fi, fl := range []uint8{0x00, 0x08, 0x20, 0x28, 0x10, 0xff} {
+			h := univ.BaseHdr
+			h.Exch, h.Flags, h.MsgID = uint8(ex), fl, uint32(ex)
+			m := ref.Msg{H: h, P: []ref.Payload{al[(ex+fi)%len(al)].P}}
+			evalC06(c, c06Case{K: "lib2ref", Name: fmt.Sprintf("hdr.exch×flags=%d/%02x", ex, fl), M: m, Suite: (ex + fi) % 9, Pattern: 2, SenderI: (ex+fi)%2 == 0})
+		}
+	}
+}
+
 func runC06(c *engine.Ctx) {
+	c06Headers(c)
 	c06Boundary(c)
 	c06Env(c)
 	patterns := []int{2, 3 + int(c.Seed%5)}
